@@ -63,6 +63,13 @@ func (s *memStore) Reset() {
 	s.mu.Unlock()
 }
 
+// Len is the number of stored objects.
+func (s *memStore) Len() int {
+	s.mu.Lock()
+	defer s.mu.Unlock()
+	return len(s.data)
+}
+
 // Raw returns the stored bytes of a key (what a later read decodes).
 func (s *memStore) Raw(key string) ([]byte, bool) {
 	s.mu.Lock()
